@@ -1,19 +1,23 @@
 #!/bin/bash
 # Diagnostic (not a registered check): block coverage of the library by the quick tier of every check
-# (C18 with the race build). Lists the library blocks no check executes. Scratch data on /dev/shm.
+# (C18 with the race build). Lists the library blocks no check executes, and the GTFS-realtime wire
+# fields / enum values no check ever populates. Scratch data on /dev/shm.
 # usage: coverage.sh [quick|thorough] [Cnn: only that check]
 cd "$(dirname "$0")"
 export GOFLAGS=-mod=mod GOPROXY=off GOSUMDB=off GOTOOLCHAIN=local TZ=UTC
 S=$(mktemp -d /dev/shm/verifcov.XXXXXX); trap 'rm -rf $S' EXIT
-mkdir -p $S/verif/evidence; cp known_findings.txt $S/verif/
+mkdir -p $S/verif/evidence $S/f; cp known_findings.txt $S/verif/
 (cd mc && go build -cover -coverpkg=.,github.com/jamespfennell/gtfs/... -tags verif -overlay ../build/overlay.json -o $S/mc_cover .) || exit 2
 (cd mc && go build -race -cover -coverpkg=.,github.com/jamespfennell/gtfs/... -tags verif -overlay ../build/overlay_race.json -o $S/mc_cover_race .) || exit 2
 ONLY=${2:-}
 for i in $(seq -w 1 20); do id=C$i; [ -n "$ONLY" ] && [ "$ONLY" != "$id" ] && continue; mkdir -p $S/data/$id
-  if [ $id = C18 ]; then VERIF_DIR=$S/verif GOCOVERDIR=$S/data/$id GORACE="exitcode=0 history_size=4" $S/mc_cover_race $id ${1:-quick} 2>&1 | grep -E "^C[0-9]+ " | cut -c1-100; continue; fi
-  VERIF_DIR=$S/verif GOCOVERDIR=$S/data/$id $S/mc_cover $id ${1:-quick} 2>&1 | grep -E "^C[0-9]+ " | cut -c1-100; done
-dirs=$(ls -d $S/data/* | tr '\n' ',' | sed 's/,$//')
-(cd mc && go tool covdata textfmt -i=$dirs -o $S/all.txt)
+  if [ $id = C18 ]; then VERIF_FIELDCOV=$S/f/$id VERIF_DIR=$S/verif GOCOVERDIR=$S/data/$id GORACE="exitcode=0 history_size=4" $S/mc_cover_race $id ${1:-quick} 2>&1 | grep -E "^C[0-9]+ " | cut -c1-100; continue; fi
+  VERIF_FIELDCOV=$S/f/$id VERIF_DIR=$S/verif GOCOVERDIR=$S/data/$id $S/mc_cover $id ${1:-quick} 2>&1 | grep -E "^C[0-9]+ " | cut -c1-100; done
+# the race build (C18) has its own meta-data: convert it separately, the summary below adds the counts up
+dirs=$(ls -d $S/data/* | grep -v /C18$ | tr '\n' ',' | sed 's/,$//')
+: > $S/all.txt
+[ -n "$dirs" ] && (cd mc && go tool covdata textfmt -i=$dirs -o $S/a1.txt && cat $S/a1.txt >> $S/all.txt)
+[ -d $S/data/C18 ] && (cd mc && go tool covdata textfmt -i=$S/data/C18 -o $S/a2.txt && cat $S/a2.txt >> $S/all.txt)
 python3 - $S/all.txt <<'PY'
 import re,collections,sys
 cov=collections.defaultdict(int)
@@ -31,3 +35,8 @@ for f,sl,el in unc:
     print("UNCOVERED %s:%d-%d  %s"%(f.replace('github.com/jamespfennell/gtfs/',''),sl,el,line[:100]))
 print("library blocks: %d, executed by some check: %d"%(len(cov),len(cov)-len(unc)))
 PY
+# wire fields / enum values of GTFS-realtime (extensions included) that no check ever populates
+cat $S/f/* 2>/dev/null | sort -u > $S/seen.txt
+$S/mc_cover --fieldcov-universe | sort -u > $S/universe.txt
+comm -23 $S/universe.txt $S/seen.txt | sed 's/^/NEVER-POPULATED /'
+echo "wire fields and enum values: $(wc -l < $S/universe.txt), populated by some check: $(comm -12 $S/universe.txt $S/seen.txt | wc -l)"
